@@ -409,7 +409,7 @@ pub fn run_history(id: usize, env: &Env, init_a: &Tree, init_b: &Tree, ops: &[Op
                             let base_version = prev_end.as_ref().map(|(ea, eb)| ea.get(p) == Some(c) && eb.get(p) == Some(c)).unwrap_or(false);
                             let superseded = !nobase && base_version && other.get(p) != Some(c);
                             if !still && !superseded {
-                                fails.push(format!("{} C02 version lost by a run that stopped on an I/O error: side {} path {:?} content {}", id, if side_a { "A" } else { "B" }, p, hex(c)));
+                                fails.push(format!("{} {} version lost by a run that stopped on an I/O error: side {} path {:?} content {}", id, if nobase { "C07" } else { "C02" }, if side_a { "A" } else { "B" }, p, hex(c)));
                             }
                         }
                     }
